@@ -68,6 +68,8 @@ def det_family(rep, tier, rng):
             parts = 1 + (qi + si) % 3
             run_.add(p.get("tag") or rel.shape(p["q"]), p["q"], db, {"partitions": parts, "det": scheds[si], "batch_size": 2},
                      extra={"knobs": {"table_chunk_capacity": 2}})
+    # deterministic replay of a recorded finding (KF-LIMIT-LEFTJOIN-HANG): DetSched shows the hang as a state
+    run_.add("kf/limit_leftjoin", rel.KF_LIMIT_LEFTJOIN, rel.KF_DB, {"partitions": 2, "det": {"fallback": "first"}})
     run_.execute()
     mism = run_.judge()
 
